@@ -61,7 +61,7 @@ Definition conform_oracle (input rb : json) (token : string) : option string :=
   then Some "a disclosure is not the base64url encoding of [salt, name, value] or [salt, value]"
   else
   (* (d) declared algorithm *)
-  if negb (json_eqb (jget "_sd_alg" payload) (JStr "sha-256")) then Some "_sd_alg does not declare the digest algorithm used"
+  if negb (match ref_alg_name payload with Some a => String.eqb a "sha-256" | None => false end) then Some "_sd_alg does not declare the digest algorithm used"
   else
   (* (c) every digest embedded exactly once in payload plus disclosure values *)
   let values := flat_map (fun s => match dec s with Some (JArr xs) => [last xs JNull] | _ => [] end) ds in
@@ -85,6 +85,10 @@ Definition conform_oracle (input rb : json) (token : string) : option string :=
 Definition case_conform (input obs : json) : verdict :=
   let eo := jget "encode" obs in
   if obs_is "panic" eo then VPropFail "Issuer::encode panics"
+  else if jbool (jget "reserved_input" input) then
+    (* claims that use a reserved name: every output would be malformed, so the only conformant outcome is an error *)
+    (if obs_is "err" eo then VOk true
+     else VPropFail "Issuer::encode issues an SD-JWT for claims that use a reserved name (_sd, ..., top-level _sd_alg) as a claim name")
   else if negb (obs_is "ok" eo) then VPropFail "Issuer::encode rejects a valid marking"
   else match conform_oracle input (jget "readback" obs) (jstr_or_empty (obs_val eo)) with
        | Some w => VPropFail ("issued SD-JWT is not conformant: " ++ w)
